@@ -663,10 +663,6 @@ func Dims() []Dim {
 		if ln := line(s, 0, 0); ln != nil && len(s.Fns) > 1 {
 			ln.Fn = (ln.Fn + 1) % len(s.Fns)
 		}
-	}}, Alt{"none", func(s *Spec) { // a line whose Function is nil (function id 0 on the wire)
-		if ln := line(s, 0, 0); ln != nil {
-			ln.Fn = -1
-		}
 	}})
 	add("l0.line0.line", intAlts(func(s *Spec) *int64 {
 		if ln := line(s, 0, 0); ln != nil {
